@@ -198,8 +198,8 @@ mut("c15-pairing-broken", "stats.py", "        out_orientations[i, ...] = orient
 mut("c15-off-by-one", "stats.py", "        count_less = np.searchsorted(cumfrac, rng.random(n_samples))", "        count_less = np.minimum(np.searchsorted(cumfrac, rng.random(n_samples)) + 1, len(cumfrac) - 1)", ["C15"])
 mut("c15-revert-F7", "stats.py", "        or _orientations.shape[2:] != (3, 3)\n", "        or _orientations.shape[2] != _orientations.shape[3] != 3\n", ["C15"])
 mut("c15-seed-ignored", "stats.py", "    rng = np.random.default_rng(seed=seed)\n    if n_samples is None:", "    rng = np.random.default_rng()\n    if n_samples is None:", ["C15"])
-mut("c15-same-draw-all-snapshots", "stats.py", "    for i, (frac, orient) in enumerate(zip(_fractions, _orientations, strict=True)):\n        sort_ascending = np.argsort(frac)", "    for i, (frac, orient) in enumerate(zip(_fractions, _orientations, strict=True)):\n        sort_ascending = np.argsort(_fractions[0])", ["C15"],
-    note="sort order of the first snapshot used for all")
+mut("c15-same-draw-all-snapshots", "stats.py", "    for i, (frac, orient) in enumerate(zip(_fractions, _orientations, strict=True)):\n        sort_ascending = np.argsort(frac)", "    for i, (frac, orient) in enumerate(zip(_fractions, _orientations, strict=True)):\n        sort_ascending = np.argsort(_fractions[0])", ["C15"], expect="silent",
+    note="a cumulative distribution over any fixed grain order is still the right law and the right pairing: equivalent w.r.t. C15")
 
 # ---------------------------------------------------------------- C16
 mut("c16-revert-F8", "io.py", "        if isinstance(value, str):\n            return \"'\" + value.replace(\"'\", \"''\") + \"'\"\n        return value", "        return value", ["C16"])
